@@ -79,6 +79,9 @@ pub fn reachable_types(m: &Model) -> std::collections::BTreeSet<String> {
                         p.ty.named(&mut ns);
                     }
                 }
+                Payload::Local { init: LocalInit::Lit(t), .. } | Payload::Local { init: LocalInit::New(t), .. } => {
+                    ns.insert(t.clone());
+                }
                 _ => {}
             }
         }
